@@ -18,13 +18,43 @@
 (* for both settings and every stack, checks that every response obeys     *)
 (* the gate and is the response the request gets alone, and prints the     *)
 (* histories that the harness sends to ONE real router instance each.      *)
+(*                                                                         *)
+(* BURST histories: before the requests, the instance went through an      *)
+(* overload -- burst.n requests IN FLIGHT at once (held open by request    *)
+(* bodies that do not arrive: the validator reads the body of an operation *)
+(* that declares one, also in read-only mode), burst.k further requests    *)
+(* while they are held, then all released.  Code-shaped layer: the router  *)
+(* has no admission control and no counter of any kind (setupAPIRouter     *)
+(* installs the validator, ConfigMiddleware and the handlers, nothing      *)
+(* else), so an overload leaves nothing behind: LimiterMax = 0.  Named     *)
+(* alternative (NOT the code) LimiterMax = L > 0: a load-shedding          *)
+(* middleware whose in-flight counter is also incremented for the requests *)
+(* it sheds and never decremented for them; after a burst with             *)
+(* (n - L) + k >= L it answers 503 to everything for ever -- TLC then      *)
+(* finds HLiveInv / HDetInv violated.  After a burst TLC enumerates the    *)
+(* single-request domain Methods x Templates (documented spelling).        *)
 (***************************************************************************)
 EXTENDS HttpGateProps, Json, SequencesExt
 
-CONSTANTS HistSpellings, HistDepth, HistHdrCross, MwState
+CONSTANTS HistSpellings, HistDepth, HistHdrCross, MwState,
+          BurstSizes,  \* numbers of requests held in flight at once ({} = no burst histories)
+          BurstExtra,  \* further requests sent while they are held
+          LimiterMax   \* 0 = the code (no limiter)
 
-VARIABLES hw, hstack, hist, hresp, cache
-hvars == <<hw, hstack, hist, hresp, cache>>
+VARIABLES hw, hstack, hist, hresp, cache, burst
+hvars == <<hw, hstack, hist, hresp, cache, burst>>
+
+NoBurst == [n |-> 0, k |-> 0]
+Bursts == {[n |-> n, k |-> BurstExtra] : n \in BurstSizes}
+\* what the alternative limiter has leaked after burst b: the shed ones of the n, and the k sent meanwhile
+Leaked(b) == IF LimiterMax > 0 /\ b.n > LimiterMax THEN (b.n - LimiterMax) + b.k ELSE 0
+Saturated(b) == LimiterMax > 0 /\ Leaked(b) >= LimiterMax
+\* the request that is held open (an operation with a request body) and the one sent meanwhile
+HoldReq == LET o == CHOOSE x \in Range(EmbOps) : x.body # "none" IN
+           [m |-> o.method, t |-> o.path, sps |-> <<"exact">>, h |-> DefaultHdr]
+MeanwhileReq == LET o == CHOOSE x \in Range(EmbOps) : IsReadOnlyEndpoint(x) /\ x.params = <<>> IN
+           [m |-> o.method, t |-> o.path, sps |-> <<"exact">>, h |-> DefaultHdr]
+AfterBurstReqs == [m : Methods, t : TplNames, sps : {<<"exact">>}, h : {DefaultHdr}]
 
 HistHdrs == {DefaultHdr} \cup (IF HistHdrCross THEN {[DefaultHdr EXCEPT !.accept = "application/json"]} ELSE {})
 HistReqs ==
@@ -35,7 +65,9 @@ PathOfReq(r) == SpellAll(BasePath(Tpl(r.t)), r.sps)
 \* run the pipeline for one request on an instance whose middleware state is c
 RECURSIVE RunH(_, _, _)
 RunH(stage, rq, c) ==
-    IF stage = "mw" /\ MwState = "pathcache"
+    IF stage = "validator" /\ Saturated(burst)
+    THEN {[r |-> Resp(503, "None", "too_many_request", "limiter"), cache |-> c]}
+    ELSE IF stage = "mw" /\ MwState = "pathcache"
     THEN LET key == rq.dec
              ress == IF key \in DOMAIN c THEN {c[key]} ELSE FindOperationResults(rq)
          IN UNION { LET x == MwDecide(rq, o)
@@ -48,18 +80,19 @@ RunH(stage, rq, c) ==
 HInit ==
     /\ hw \in BOOLEAN
     /\ hstack \in Stacks
+    /\ burst \in {NoBurst} \cup (IF hstack = "server" THEN Bursts ELSE {})
     /\ hist = <<>>
     /\ hresp = <<>>
     /\ cache = <<>>
 
 HNext ==
-    /\ Len(hist) < HistDepth
-    /\ \E r \in HistReqs :
+    /\ Len(hist) < (IF burst = NoBurst THEN HistDepth ELSE 1)
+    /\ \E r \in (IF burst = NoBurst THEN HistReqs ELSE AfterBurstReqs) :
          \E x \in RunH("outer", MkRq(r.m, PathOfReq(r), hw, r.h, hstack, FALSE), cache) :
             /\ hist' = Append(hist, r)
             /\ hresp' = Append(hresp, x.r)
             /\ cache' = x.cache
-    /\ UNCHANGED <<hw, hstack>>
+    /\ UNCHANGED <<hw, hstack, burst>>
 
 HSpec == HInit /\ [][HNext]_hvars
 
@@ -68,8 +101,15 @@ HLiveInv == \A i \in DOMAIN hresp : C18_Live(hist[i].m, hist[i].t, hist[i].sps, 
 \* the decision does not depend on what the instance served before
 HDetInv == \A i \in DOMAIN hresp : ServeReq(hist[i], hw, hstack, FALSE) = {hresp[i]}
 
+WithTargetH(r) == [m |-> r.m, t |-> r.t, sps |-> r.sps, h |-> r.h, target |-> Target(PathOfReq(r))]
+HBurstEmitInv ==
+    (burst # NoBurst /\ Len(hist) = 1) =>
+        PrintT(<<"BURST", ToJson([w |-> hw, stack |-> hstack, n |-> burst.n, k |-> burst.k,
+                                  hold |-> WithTargetH(HoldReq), meanwhile |-> WithTargetH(MeanwhileReq),
+                                  req |-> WithTargetH(hist[1])])>>)
+
 HEmitInv ==
-    Len(hist) = HistDepth =>
+    (burst = NoBurst /\ Len(hist) = HistDepth) =>
         PrintT(<<"HIST", ToJson([w |-> hw, stack |-> hstack,
                                  reqs |-> [i \in DOMAIN hist |->
                                             [m |-> hist[i].m, t |-> hist[i].t, sps |-> hist[i].sps, h |-> hist[i].h,
